@@ -140,7 +140,7 @@ def _open_post(ctx):
     if rec["thr"] is None:
         classes.append("C01:threshold-none")
     sig = (fmt, blanks, keep, rec["thr"], tuple(sorted(nclasses)), tuple(sorted(lcs)), kinds)
-    case = {"call": "roundtrip", "tg": s, "format": fmt, "blanks": blanks, "keep_empty": keep, "thr": rec["thr"]}
+    case = {"call": "roundtrip", "tg": s, "format": fmt, "blanks": blanks, "keep_empty": keep, "thr": rec["thr"], "int_typed": _int_typed[0]}
     mech = {"format": fmt, "text_format": fmt in TC.TEXT_FORMATS, "keyword": tggen.data_splits_reader(data),
             "exc": type(ctx.exc).__name__ if ctx.exc else None}
     REC.outcome("roundtrip", ctx.exc)
@@ -174,6 +174,28 @@ def install():
 
     core.attach(Textgrid, "save", "roundtrip.save", _save_pre, _save_post)
     core.attach(tgmod, "openTextgrid", "roundtrip", _open_pre, _open_post, method=False)
+
+
+def int_typed(tg):
+    """the same textgrid with every whole-number timestamp handed over as a Python int, the way a caller writes them: the span given to
+    Textgrid(0, 20), entries added with insertEntry((3, 4, "x")).  3 and 3.0 are the same time."""
+    from praatio.data_classes.textgrid import Textgrid
+
+    whole = lambda v: isinstance(v, float) and v.is_integer() and abs(v) < 2 ** 53
+    as_int = lambda v: int(v) if whole(v) else v
+    with core.paused():
+        out = Textgrid(as_int(tg.minTimestamp), as_int(tg.maxTimestamp))
+        for t in tg.tiers:
+            t2 = t.new()
+            for e in list(t2.entries):
+                if any(whole(v) for v in e[:-1]):
+                    t2.deleteEntry(e)
+                    t2.insertEntry(tuple(as_int(v) for v in e[:-1]) + (e[-1],))
+            out.addTier(t2, reportingMode="silence")
+    return out
+
+
+_int_typed = [False]  # set by the driver for the cases it records (replay re-applies int_typed)
 
 
 def roundtrip(tg, data, work, fmt, blanks, keep, thr, k):
@@ -213,7 +235,7 @@ def roundtrip(tg, data, work, fmt, blanks, keep, thr, k):
     rec = {"snap": s, "format": fmt, "blanks": blanks, "minT": None, "maxT": None, "thr": thr}
     if judgeable(rec) is not None:
         return
-    case = {"call": "fixedpoint", "tg": s, "format": fmt, "blanks": blanks, "keep_empty": keep, "thr": thr}
+    case = {"call": "fixedpoint", "tg": s, "format": fmt, "blanks": blanks, "keep_empty": keep, "thr": thr, "int_typed": _int_typed[0]}
     mech = {"format": fmt, "text_format": fmt in TC.TEXT_FORMATS, "keyword": tggen.data_splits_reader(data), "step": "fixedpoint"}
     try:
         with core.paused():
@@ -240,6 +262,14 @@ def workload(tier, rng, shard, nshards, work):
             data, _cl = tggen.gen_textgrid(rng, ntiers=(1, 5), nentries=(0, 7), keywords=(i % 5 == 4), min_gap=0 if tiny else 2e-8,
                                            scale_class="tiny" if tiny else None)
             tg = TC.build_tg(data)
+            _int_typed[0] = False
+            if i % 6 == 5:
+                try:
+                    tg = int_typed(tg)
+                    _int_typed[0] = True
+                    REC.cls("C01:whole-number-timestamps-given-as-int")
+                except Exception:
+                    pass
             for fmt in TC.FORMATS:
                 for blanks in (True, False):
                     for keep in (True, False):
@@ -256,6 +286,9 @@ def replay(v, work):
     with contextlib.redirect_stdout(io.StringIO()):
         with core.paused():
             tg = snap.build_tg(c["tg"])
+        if c.get("int_typed"):
+            tg = int_typed(tg)
+            _int_typed[0] = True
         roundtrip(tg, TC.data_of_snap(c["tg"]), work, c["format"], c["blanks"], c["keep_empty"], c.get("thr", 1e-8), 0)
 
 
